@@ -62,6 +62,7 @@ def extract(repo="/repo", crate="kismet_cache", pkg_fingerprint="kismet-cache", 
         cmd = ["cargo", "+nightly", "check", "--offline", "--lib"]
         if cfg_test:
             cmd += ["--profile", "test"]
+            env["KFACTS_CRATE"] = crate
         t0 = time.time()
         r = subprocess.run(cmd, cwd=repo, env=env, stdout=subprocess.PIPE, stderr=subprocess.STDOUT, text=True)
         if r.returncode != 0:
